@@ -1,0 +1,8 @@
+//go:build verif
+
+package diskwriter
+
+// This file only exists in builds with the "verif" tag: it exports the
+// filename sanitiser to an external monitoring harness.
+
+func VerifSanitise(s string) string { return sanitise(s) }
